@@ -162,7 +162,7 @@ impl Prop for C11 {
         }
     }
     fn rule(&self) -> &'static str {
-        "one run = 1-3 parent generations of an evolving source (edit scripts in which every content change also changes mtime/ctime, plus type changes file<->dir<->symlink, touch, rename, add/remove, a directory copied with its metadata under a name sorting directly before the original with the copies' contents changed, a file whose content changed while its modification time is no longer reported, or no change at all), then the SAME current source is backed up twice on forks of one frozen store: \
+        "one run = 1-3 parent generations of an evolving source (edit scripts in which every content change also changes mtime/ctime, plus type changes file<->dir<->symlink, touch, rename, add/remove, a directory copied with its metadata under a name sorting directly before the original with the copies' contents changed, a file whose content changed while its modification time is no longer reported, a file changed in place with mtime put back so that only ctime tells (when ctime is not ignored), or no change at all), then the SAME current source is backed up twice on forks of one frozen store: \
          A with parent options (implicit latest, explicit 1-2 parents, ignore-ctime, ignore-inode, skip-if-unchanged) and B with force (reads every file). Optionally some data blobs of the parent are dropped from the index first. \
          Oracles: tree id of A == tree id of B; A reads back equal to the source model; every file whose parent blobs are not all indexed was opened again by A; with the plain implicit parent the summary counters files_new/changed/unmodified equal the model's classification; \
          skip-if-unchanged writes a snapshot iff the tree differs from the parent's. evaluations = 1 comparison per run; non-trivial = A opened fewer files than B (the parent shortcut was taken) or blobs were dropped; distinct = hash(options, models)"
@@ -298,6 +298,30 @@ impl Prop for C11 {
                 if let Some(desc) = clone_dir_before(&mut rng, &mut model, &parent_model) {
                     rep.fire("directory_cloned_before_its_original", 1);
                     hist.push(desc);
+                }
+            }
+            // content changed in place with the modification time put back: only the change time tells
+            // (inside the premise as long as ctime is not ignored)
+            if !s.ignore_ctime && rng.chance(1, 3) {
+                let cands: Vec<PathKey> = model
+                    .entries
+                    .iter()
+                    .filter(|(k, e)| matches!(&e.kind, Kind::File(b) if !b.is_empty()) && e.links == 1 && parent_model.entries.get(*k).is_some_and(|p| matches!(&p.kind, Kind::File(b) if !b.is_empty()) && p.links == 1))
+                    .map(|(k, _)| k.clone())
+                    .collect();
+                if !cands.is_empty() {
+                    let k = cands[rng.usize(cands.len())].clone();
+                    let pe = parent_model.entries[&k].clone();
+                    if let Kind::File(pb) = &pe.kind {
+                        let nb: Vec<u8> = pb.iter().map(|x| x.wrapping_add(7)).collect();
+                        let now = interpose::clock_now() / 1_000_000_000;
+                        let e = model.entries.get_mut(&k).unwrap();
+                        *e = pe.clone();
+                        e.kind = Kind::File(Arc::new(nb));
+                        e.ctime = (now, 1);
+                        rep.fire("file_changed_with_only_ctime_telling", 1);
+                        hist.push(format!("ctime-only {}", show_key(&k)));
+                    }
                 }
             }
             // a file whose content changed (same size) and whose modification time is no longer reported
